@@ -1073,6 +1073,13 @@ func (fc *FnCtx) havocRegion(st *State, r region) {
 	}
 	fc.heapKeySort(r.key, r.sort)
 	if r.base == "" {
+		if r.key == "$alloc" {
+			// the allocation counter only grows
+			old := fc.heapGet(st, r.key, r.sort)
+			st.heap[r.key] = fc.fresh(r.key, r.sort)
+			fc.assume(st, app(">=", st.heap[r.key], old))
+			return
+		}
 		st.heap[r.key] = fc.fresh(r.key, r.sort)
 		return
 	}
@@ -1257,7 +1264,11 @@ func (fc *FnCtx) bytesToString(st *State, v Val, to types.Type) Val {
 		fc.declared["gs.ofbytes"] = true
 		fc.addPre(fmt.Sprintf("(declare-fun gs.ofbytes ((Array %s (_ BitVec 8)) %s %s) Str)", I, I, I))
 		fc.addAxiom("gs.ofbytes", fmt.Sprintf("(assert (forall ((a (Array %s (_ BitVec 8))) (o %s) (n %s)) (! (=> %s (= (gs.len (gs.ofbytes a o n)) n)) :pattern ((gs.ofbytes a o n)))))", I, I, I, fc.leIdx(fc.idxLit(0), "n")))
-		fc.addAxiom("gs.ofbytes", fmt.Sprintf("(assert (forall ((a (Array %s (_ BitVec 8))) (o %s) (n %s) (i %s)) (! (=> (and %s %s) (= (gs.at (gs.ofbytes a o n) i) (select a %s))) :pattern ((gs.at (gs.ofbytes a o n) i)))))", I, I, I, I, fc.leIdx(fc.idxLit(0), "i"), fc.ltIdx("i", "n"), fc.addIdx("o", "i")))
+		rd := app("select", "a", fc.addIdx("o", "i"))
+		if fc.cs != nil && fc.cs.IndexElt {
+			rd = app(fc.eltFn(tUint8), "a", "o", "i")
+		}
+		fc.addAxiom("gs.ofbytes", fmt.Sprintf("(assert (forall ((a (Array %s (_ BitVec 8))) (o %s) (n %s) (i %s)) (! (=> (and %s %s) (= (gs.at (gs.ofbytes a o n) i) %s)) :pattern ((gs.at (gs.ofbytes a o n) i)))))", I, I, I, I, fc.leIdx(fc.idxLit(0), "i"), fc.ltIdx("i", "n"), rd))
 	}
 	if !fc.isBVType(tUint8) {
 		fc.fail(token.NoPos, "string([]byte) needs bytes as bit-vectors (use `arith mixed`)")
